@@ -94,6 +94,9 @@ WTS = {
     "npint": WEmb("npint", 1, 1, "int64"),
     "float1": WEmb("float1", 1, 1, "pyfloat"),
     "int16": WEmb("int16", 1, 1, "int16"),
+    # contents that fit a narrow integer type cell by cell while their sums along an axis do not
+    "narrow16": WEmb("narrow16", 1200, 1, "int16"),
+    "narrow32": WEmb("narrow32", 80000000, 1, "int32"),
 }
 
 
@@ -113,3 +116,23 @@ def isnan(v) -> bool:
         return bool(v != v)
     except Exception:
         return False
+
+
+class InputGuard:
+    """Arguments handed to physt must come back unchanged (arrays are kept by reference and compared with a private copy)."""
+
+    def __init__(self):
+        self._kept = []
+
+    def track(self, a):
+        if isinstance(a, np.ndarray):
+            self._kept.append((a, a.copy()))
+        return a
+
+    def changed(self):
+        out = []
+        for a, c in self._kept:
+            same = a.shape == c.shape and (np.array_equal(a, c, equal_nan=True) if a.dtype.kind == "f" else np.array_equal(a, c))
+            if not same:
+                out.append({"before": c.tolist(), "after": a.tolist()})
+        return out
